@@ -88,9 +88,7 @@ pub fn run(ctx: &Ctx) -> Report {
                     }
                 }
             });
-            if sample_key(seed, i) < (1u64 << 49) {
-                acc.sample(sample_key(seed, i), json!({"tree": t.hex(), "hash": hx(&refsha::tree_hash(&t))}));
-            }
+            acc.maybe_sample(sample_key(seed, i), || json!({"tree": t.hex(), "hash": hx(&refsha::tree_hash(&t))}));
         });
         rep.absorb(acc);
     }
